@@ -257,7 +257,7 @@ def cylindrical(S):
                                               'holopy.scattering.theory.mielensfunctions.AlBlFunctions.calculate_al_bl'],
             stubs=['scipy.special spherical_jn/yn, j0, j1 := uninterpreted atoms'], angle_mode='atoms', timeout_s=180,
             nvalid=2, cost=3,
-            bounds='the REAL MieLens calculator (3 quadrature nodes, max_l = 4) for one sphere and two lens angles, '
+            bounds='the REAL MieLens calculator (2 quadrature nodes, max_l = 2) for one sphere and two lens angles, '
                    'evaluated in the orders (A, B) and - after re-importing the theory modules, i.e. fresh module '
                    'state - (B, A): each result is the same in both orders; 1 symbolic detector point, symbolic kz')
 def history_mielens(S):
@@ -275,7 +275,7 @@ def history_mielens(S):
             shim_np(S, m2)
         bessel_atoms(S)
         _bessel_stubs(S)
-        S.patch(m1.MieScatteringMatrix, '_default_max_l', lambda self: 4, both=True)
+        S.patch(m1.MieScatteringMatrix, '_default_max_l', lambda self: 2, both=True)
         return m2
     if S.sym:
         for m in (meta, utils, hm):
@@ -284,7 +284,7 @@ def history_mielens(S):
     phi = S.angle('phi', 0, 2)
     kz = S.real('kz')
     from props import mlcommon as mc
-    acc = {'quad_npts': 3, 'interpolate_integrals': False}
+    acc = {'quad_npts': 2, 'interpolate_integrals': False}
 
     def run(mod, angle):
         th = mod.MieLens(lens_angle=angle, calculator_accuracy_kwargs=acc)
